@@ -130,6 +130,10 @@ void h_Quote_exact(void) {
   char *src = S + off;
 #endif
   for (size_t i = 0; i < QMAXNB; i++) if (i < nb) in_str[i] = (uint8_t)src[i];
+#ifdef ISOLATED_ESCAPES
+  /* this job: no two adjacent bytes need an escape (runs of escapes are the subject of job C09.DoEscape.exact) */
+  for (size_t i = 0; i + 1 < QMAXNB; i++) if (i + 1 < nb) __CPROVER_assume(!(SPEC_NEED_ESCAPE(in_str[i]) && SPEC_NEED_ESCAPE(in_str[i + 1])));
+#endif
   char want[6 * QMAXNB + 2]; size_t wn = spec_quote(in_str, nb, want);
   char *dst = malloc(6 * nb + 32 + 3); __CPROVER_assume(dst != NULL);
   char *r = Quote(src, nb, dst);
@@ -138,3 +142,30 @@ void h_Quote_exact(void) {
   VASSERT(dst[k] == want[k], "C09.quote.bytes: emitted byte k equals the RFC 8259 quoting (independent of bytes behind the string)");
   CANARY();
 }
+
+
+/* ---- DoEscape: byte-exact output for runs of up to RUNMAX consecutive escaped bytes (bounded stand-in) ---- */
+#ifndef CONTRACT_ONLY_DoEscape
+#ifndef RUNMAX
+#define RUNMAX 4
+#endif
+uint8_t in_run[RUNMAX + 1];
+void h_DoEscape_exact(void) {
+  size_t nb; __CPROVER_assume(1 <= nb && nb <= RUNMAX + 1); in_nb = nb;
+  char *S = malloc(nb), *D = malloc(6 * nb + 2); __CPROVER_assume(S != NULL && D != NULL);
+  for (size_t i = 0; i < RUNMAX + 1; i++) if (i < nb) in_run[i] = (uint8_t)S[i];
+  __CPROVER_assume(SPEC_NEED_ESCAPE(in_run[0]));
+  /* oracle: escapes of the maximal run of bytes needing an escape */
+  char want[6 * (RUNMAX + 1)]; size_t wn = 0, run = 0;
+  for (size_t i = 0; i < RUNMAX + 1; i++) {
+    if (i < nb && run == i && SPEC_NEED_ESCAPE(in_run[i])) { char e[6]; unsigned n = spec_quote_byte(in_run[i], e); for (unsigned k = 0; k < 6; k++) if (k < n) want[wn++] = e[k]; run++; }
+  }
+  const char *src = S; char *dst = D; size_t left = nb;
+  DoEscape(src, dst, left);
+  VASSERT((size_t)(src - S) == run && left == nb - run, "C09.doescape.run: consumes exactly the maximal run of bytes that need an escape");
+  VASSERT((size_t)(dst - D) == wn, "C09.doescape.len: emits exactly the escapes of that run");
+  size_t k; __CPROVER_assume(k < wn); in_k = k;
+  VASSERT(D[k] == want[k], "C09.doescape.bytes: emitted byte k equals the RFC 8259 escape text");
+  CANARY();
+}
+#endif
